@@ -93,7 +93,7 @@ func init() {
 				}
 				c := f.Ctx()
 				cancels := false
-				ast.Inspect(f.Body(), func(x ast.Node) bool {
+				core.InspectBody(f, func(x ast.Node) bool {
 					as, ok := x.(*ast.AssignStmt)
 					if !ok || len(as.Lhs) != 1 || len(as.Rhs) != 1 {
 						return true
@@ -290,7 +290,7 @@ func sharedBatchReset(r *Run) {
 		}
 		c := f.Ctx()
 		var local types.Object
-		ast.Inspect(f.Body(), func(x ast.Node) bool {
+		core.InspectBody(f, func(x ast.Node) bool {
 			as, ok := x.(*ast.AssignStmt)
 			if !ok || len(as.Lhs) != 1 || len(as.Rhs) != 1 {
 				return true
@@ -431,7 +431,7 @@ func init() {
 					continue
 				}
 				c := f.Ctx()
-				ast.Inspect(f.Body(), func(x ast.Node) bool {
+				core.InspectBody(f, func(x ast.Node) bool {
 					se, ok := x.(*ast.SliceExpr)
 					if !ok {
 						return true
@@ -539,7 +539,7 @@ func init() {
 func appendSeq(f *core.FuncInfo) []string {
 	c := f.Ctx()
 	var seq []string
-	ast.Inspect(f.Body(), func(x ast.Node) bool {
+	core.InspectBody(f, func(x ast.Node) bool {
 		as, ok := x.(*ast.AssignStmt)
 		if !ok || len(as.Lhs) != 1 || len(as.Rhs) != 1 {
 			return true
@@ -594,7 +594,7 @@ func init() {
 			// the chunk-size variable: divisor of len(hashes) / X and len(hashes) % X
 			var step types.Object
 			var uses []ast.Node
-			ast.Inspect(f.Body(), func(x ast.Node) bool {
+			core.InspectBody(f, func(x ast.Node) bool {
 				b, ok := x.(*ast.BinaryExpr)
 				if !ok || (b.Op != token.QUO && b.Op != token.REM) || !lenOf(core.IsObj("param:0"))(c, b.X) {
 					return true
@@ -604,7 +604,7 @@ func init() {
 				}
 				return true
 			})
-			ast.Inspect(f.Body(), func(x ast.Node) bool {
+			core.InspectBody(f, func(x ast.Node) bool {
 				b, ok := x.(*ast.BinaryExpr)
 				if !ok || (b.Op != token.QUO && b.Op != token.REM) || !lenOf(core.IsObj("param:0"))(c, b.X) {
 					return true
@@ -698,7 +698,7 @@ func init() {
 			}
 			c := f.Ctx()
 			n := 0
-			ast.Inspect(f.Body(), func(x ast.Node) bool {
+			core.InspectBody(f, func(x ast.Node) bool {
 				is, ok := x.(*ast.IfStmt)
 				if !ok {
 					return true
@@ -858,7 +858,7 @@ func init() {
 				c := f.Ctx()
 				label := f.Name + " removes nothing from the committed overlay"
 				bad := token.NoPos
-				ast.Inspect(f.Body(), func(x ast.Node) bool {
+				core.InspectBody(f, func(x ast.Node) bool {
 					if call, ok := x.(*ast.CallExpr); ok && recvFieldCall("cache")(c, call) {
 						if fnc := core.Callee(c.Info, call); fnc != nil && (fnc.Name() == "Delete" || fnc.Name() == "DeleteSync") {
 							bad = call.Pos()
@@ -968,7 +968,7 @@ func init() {
 			}
 			// the incremented byte is byte i
 			okInc := false
-			ast.Inspect(f.Body(), func(x ast.Node) bool {
+			core.InspectBody(f, func(x ast.Node) bool {
 				as, ok := x.(*ast.AssignStmt)
 				if !ok || len(as.Lhs) != 1 {
 					return true
@@ -1078,7 +1078,7 @@ func init() {
 					continue
 				}
 				c := f.Ctx()
-				ast.Inspect(f.Body(), func(x ast.Node) bool {
+				core.InspectBody(f, func(x ast.Node) bool {
 					as, ok := x.(*ast.AssignStmt)
 					if !ok {
 						return true
@@ -1124,7 +1124,7 @@ func init() {
 				r.Touch(pf)
 				c := pf.Ctx()
 				cuts, clears := false, false
-				ast.Inspect(pf.Body(), func(x ast.Node) bool {
+				core.InspectBody(pf, func(x ast.Node) bool {
 					as, ok := x.(*ast.AssignStmt)
 					if !ok || len(as.Lhs) != 1 || len(as.Rhs) != 1 {
 						return true
@@ -1258,7 +1258,7 @@ func init() {
 				c := f.Ctx()
 				// the variable decoded into
 				var dec types.Object
-				ast.Inspect(f.Body(), func(x ast.Node) bool {
+				core.InspectBody(f, func(x ast.Node) bool {
 					call, ok := x.(*ast.CallExpr)
 					if !ok || len(call.Args) != 2 {
 						return true
@@ -1279,7 +1279,7 @@ func init() {
 				n++
 				label := fmt.Sprintf("%s returns the decoded record without touching its fields", f.Name)
 				bad := token.NoPos
-				ast.Inspect(f.Body(), func(x ast.Node) bool {
+				core.InspectBody(f, func(x ast.Node) bool {
 					as, ok := x.(*ast.AssignStmt)
 					if !ok {
 						return true
@@ -1418,7 +1418,7 @@ func envErrorTested(r *Run, pkgShort string, min int) {
 	n := 0
 	for _, f := range r.W.AllFuncs(pkg) {
 		c := f.Ctx()
-		ast.Inspect(f.Body(), func(x ast.Node) bool {
+		core.InspectBody(f, func(x ast.Node) bool {
 			if _, isLit := x.(*ast.FuncLit); isLit && x != f.Node() {
 				return false
 			}
@@ -1499,7 +1499,7 @@ func init() {
 				}
 				c := f.Ctx()
 				out := map[string]int{}
-				ast.Inspect(f.Body(), func(x ast.Node) bool {
+				core.InspectBody(f, func(x ast.Node) bool {
 					call, ok := x.(*ast.CallExpr)
 					if !ok {
 						return true
@@ -1724,7 +1724,7 @@ func init() {
 			}
 			c := f.Ctx()
 			conds := map[string]map[string]int{"left": {}, "right": {}}
-			ast.Inspect(f.Body(), func(x ast.Node) bool {
+			core.InspectBody(f, func(x ast.Node) bool {
 				call, ok := x.(*ast.CallExpr)
 				if !ok {
 					return true
@@ -1798,7 +1798,7 @@ func layerOrder(f *core.FuncInfo) []string {
 	}
 	// the list may be built by a helper of the same package (extracted so that listing and counting share it)
 	c := f.Ctx()
-	ast.Inspect(f.Body(), func(x ast.Node) bool {
+	core.InspectBody(f, func(x ast.Node) bool {
 		if len(seq) > 0 {
 			return false
 		}
@@ -1817,7 +1817,7 @@ func layerOrder(f *core.FuncInfo) []string {
 func layerOrderIn(f *core.FuncInfo) []string {
 	c := f.Ctx()
 	var seq []string
-	ast.Inspect(f.Body(), func(x ast.Node) bool {
+	core.InspectBody(f, func(x ast.Node) bool {
 		switch s := x.(type) {
 		case *ast.RangeStmt:
 			if cl, ok := ast.Unparen(s.X).(*ast.CompositeLit); ok {
@@ -1911,7 +1911,7 @@ func init() {
 				return false
 			}
 			n := 0
-			ast.Inspect(f.Body(), func(x ast.Node) bool {
+			core.InspectBody(f, func(x ast.Node) bool {
 				if isPrefixStore(c, x) {
 					n++
 				}
@@ -1947,7 +1947,7 @@ func init() {
 					continue
 				}
 				c := f.Ctx()
-				ast.Inspect(f.Body(), func(x ast.Node) bool {
+				core.InspectBody(f, func(x ast.Node) bool {
 					switch s := x.(type) {
 					case *ast.KeyValueExpr:
 						if id, ok := s.Key.(*ast.Ident); ok && id.Name == "old" {
@@ -2123,7 +2123,7 @@ func init() {
 			c := f.Ctx()
 			// the chunk-size variable: what the leaf count is taken modulo of
 			var step types.Object
-			ast.Inspect(f.Body(), func(x ast.Node) bool {
+			core.InspectBody(f, func(x ast.Node) bool {
 				b, ok := x.(*ast.BinaryExpr)
 				if ok && b.Op == token.REM && lenOf(core.IsObj("param:0"))(c, b.X) {
 					if id, ok := ast.Unparen(b.Y).(*ast.Ident); ok {
@@ -2140,7 +2140,7 @@ func init() {
 			n := 0
 			for _, fi := range append([]*core.FuncInfo{f}, f.Closures()...) {
 				ci := fi.Ctx()
-				ast.Inspect(fi.Body(), func(x ast.Node) bool {
+				core.InspectBody(fi, func(x ast.Node) bool {
 					call, ok := x.(*ast.CallExpr)
 					if !ok {
 						return true
@@ -2183,7 +2183,7 @@ func init() {
 				fl := core.RunFlow(f, &core.FlowSpec{Assume: as})
 				label := fmt.Sprintf("%s answers nil when the engine reports the key missing", f.Name)
 				hasTest := false
-				ast.Inspect(f.Body(), func(x ast.Node) bool {
+				core.InspectBody(f, func(x ast.Node) bool {
 					if e, ok := x.(ast.Expr); ok {
 						if _, ok := core.CmpAtom(f.Ctx(), e, engineErr, isNF); ok {
 							hasTest = true
@@ -2318,7 +2318,7 @@ func init() {
 				for callee := range calleeSet(f) {
 					if h := r.W.Func(callee); h != nil && h.Pkg == f.Pkg {
 						c := h.Ctx()
-						ast.Inspect(h.Body(), func(x ast.Node) bool {
+						core.InspectBody(h, func(x ast.Node) bool {
 							if kv, ok := x.(*ast.KeyValueExpr); ok {
 								if id, ok := kv.Key.(*ast.Ident); ok && id.Name == "persisted" && isTrue(c, kv.Value) {
 									sp.Calls = append(sp.Calls, called("persisted-set", callee))
@@ -2349,7 +2349,7 @@ func init() {
 			c := f.Ctx()
 			readonly := map[string]bool{"Sign": true, "Bytes": true, "Bits": true, "BitLen": true, "Cmp": true, "CmpAbs": true, "Int64": true, "Uint64": true, "IsInt64": true, "IsUint64": true, "String": true, "Text": true, "Bit": true, "TrailingZeroBits": true, "FillBytes": true, "Format": true, "Append": true, "ProbablyPrime": true}
 			n, bad := 0, ""
-			ast.Inspect(f.Body(), func(x ast.Node) bool {
+			core.InspectBody(f, func(x ast.Node) bool {
 				call, ok := x.(*ast.CallExpr)
 				if !ok {
 					return true
@@ -2393,7 +2393,7 @@ func init() {
 				}
 				for _, f := range append([]*core.FuncInfo{decl}, decl.Closures()...) {
 					cs := map[string]bool{}
-					ast.Inspect(f.Body(), func(x ast.Node) bool {
+					core.InspectBody(f, func(x ast.Node) bool {
 						if lit, ok := x.(*ast.FuncLit); ok && lit != f.Lit {
 							return false // nested literals are functions of their own
 						}
@@ -2490,7 +2490,7 @@ func init() {
 					want[m] = true
 				}
 				out := map[string]bool{}
-				ast.Inspect(f.Body(), func(x ast.Node) bool {
+				core.InspectBody(f, func(x ast.Node) bool {
 					call, ok := x.(*ast.CallExpr)
 					if !ok || len(call.Args) < 1 {
 						return true
@@ -2597,7 +2597,7 @@ func init() {
 		if depth == 0 {
 			return
 		}
-		ast.Inspect(f.Body(), func(x ast.Node) bool {
+		core.InspectBody(f, func(x ast.Node) bool {
 			call, ok := x.(*ast.CallExpr)
 			if !ok {
 				return true
